@@ -67,7 +67,12 @@ func acquireRealZstdWriter(w io.Writer, level int) *zstd.Encoder {
 	p := realZstdWriterPoolMap[nLevel]
 	v := p.Get()
 	if v == nil {
-		zw, err := zstd.NewWriter(w, zstd.WithEncoderLevel(zstd.EncoderLevel(nLevel)))
+		// Concurrency 1 disables the encoder's asynchronous block compression.
+		// With it, blocks reach w from a background goroutine after Write has
+		// returned, racing with the stackless writer that drains and resets its
+		// intermediate buffer right after every operation: parts of large
+		// inputs were lost and the stream came out corrupted.
+		zw, err := zstd.NewWriter(w, zstd.WithEncoderLevel(zstd.EncoderLevel(nLevel)), zstd.WithEncoderConcurrency(1))
 		if err != nil {
 			panic(err)
 		}
